@@ -58,6 +58,18 @@ def checkOrders (kvs okv : List (String × String)) : String := Id.run do
     | none => return "FAIL MODEL force: model diverges"
   let e2 := (lin.newLast.1).newLast.1
   if ext != s!"{n},{n+1},{showPair e2}" then return s!"FAIL MODEL ext: model {showPair e2}"
+  -- run-time extension of the min-fill order
+  let mfext := (lookup okv "mfext").getD ""
+  if !mfext.startsWith "panic:" && !((lookup okv "minfill").getD "").startsWith "panic:" then
+    match mfext.splitOn "," with
+    | x :: rest =>
+      let some (p2v, v2p) := parseOrderPair (",".intercalate rest) | return "FAIL PARSE mfext"
+      if x.toNat? != some n then return s!"FAIL SPEC new_last on the min-fill order returned label {x}, the order had {n} variables"
+      if !isPermInv (n + 1) p2v v2p then return s!"FAIL SPEC the extended min-fill order is not a permutation with mutually inverse maps: {mfext}"
+      if p2v.take n != mf.posToVar || p2v.drop n != [n] then return "FAIL SPEC run-time extension changed the existing order or did not append the new variable last"
+      let me := mf.newLast.1
+      if s!"{n},{showPair me}" != mfext then return "FAIL MODEL mfext"
+    | _ => return "FAIL PARSE mfext"
   return s!"ok nontrivial={nt}"
 
 def checkPerm (kvs okv : List (String × String)) : String := Id.run do
@@ -71,6 +83,16 @@ def checkPerm (kvs okv : List (String × String)) : String := Id.run do
   if lookup okv "lt" != some lt then return "FAIL SPEC lt does not agree with the positions"
   let o := Orders.VarOrder.new order
   if s!"{showNats "," o.posToVar}/{showNats "," o.varToPos}" != (lookup okv "order").getD "" then return "FAIL MODEL VarOrder.new"
+  -- two run-time extensions on top of the explicit permutation
+  match ((lookup okv "ext").getD "").splitOn "," with
+  | a :: b :: rest =>
+    let some (ep2v, ev2p) := parseOrderPair (",".intercalate rest) | return "FAIL PARSE ext"
+    if a.toNat? != some n || b.toNat? != some (n + 1) then return s!"FAIL SPEC new_last returned labels {a},{b} on an order over {n} variables"
+    if !isPermInv (n + 2) ep2v ev2p then return s!"FAIL SPEC the extended order is not a permutation with mutually inverse maps"
+    if ep2v.take n != order || ep2v.drop n != [n, n + 1] then return "FAIL SPEC run-time extension changed the existing order or did not append the new variables last"
+    let e2 := (o.newLast.1).newLast.1
+    if s!"{n},{n+1},{showPair e2}" != (lookup okv "ext").getD "" then return "FAIL MODEL extension of a permutation"
+  | _ => return "FAIL PARSE ext"
   return s!"ok nontrivial={if order != List.range n then 1 else 0}"
 
 /-! ### dtrees -/
